@@ -2,12 +2,13 @@
 //! oracle, C20 leak oracle). A few atomic operations per allocation.
 
 use std::alloc::{GlobalAlloc, Layout, System};
-use std::sync::atomic::{AtomicUsize, Ordering};
+use std::sync::atomic::{AtomicIsize, Ordering};
 
 pub struct Counting;
 
-static LIVE: AtomicUsize = AtomicUsize::new(0);
-static PEAK: AtomicUsize = AtomicUsize::new(0);
+// signed: memory allocated before tracking started may be freed afterwards
+static LIVE: AtomicIsize = AtomicIsize::new(0);
+static PEAK: AtomicIsize = AtomicIsize::new(0);
 
 thread_local! {
     /// only the thread that runs the cases is accounted (the watchdog thread's
@@ -28,7 +29,7 @@ unsafe impl GlobalAlloc for Counting {
     unsafe fn alloc(&self, l: Layout) -> *mut u8 {
         let p = System.alloc(l);
         if !p.is_null() && tracked() {
-            let now = LIVE.fetch_add(l.size(), Ordering::Relaxed) + l.size();
+            let now = LIVE.fetch_add(l.size() as isize, Ordering::Relaxed).wrapping_add(l.size() as isize);
             PEAK.fetch_max(now, Ordering::Relaxed);
         }
         p
@@ -36,7 +37,7 @@ unsafe impl GlobalAlloc for Counting {
     unsafe fn alloc_zeroed(&self, l: Layout) -> *mut u8 {
         let p = System.alloc_zeroed(l);
         if !p.is_null() && tracked() {
-            let now = LIVE.fetch_add(l.size(), Ordering::Relaxed) + l.size();
+            let now = LIVE.fetch_add(l.size() as isize, Ordering::Relaxed).wrapping_add(l.size() as isize);
             PEAK.fetch_max(now, Ordering::Relaxed);
         }
         p
@@ -44,25 +45,25 @@ unsafe impl GlobalAlloc for Counting {
     unsafe fn dealloc(&self, p: *mut u8, l: Layout) {
         System.dealloc(p, l);
         if tracked() {
-            LIVE.fetch_sub(l.size(), Ordering::Relaxed);
+            LIVE.fetch_sub(l.size() as isize, Ordering::Relaxed);
         }
     }
     unsafe fn realloc(&self, p: *mut u8, l: Layout, new_size: usize) -> *mut u8 {
         let q = System.realloc(p, l, new_size);
         if !q.is_null() && tracked() {
             if new_size >= l.size() {
-                let d = new_size - l.size();
-                let now = LIVE.fetch_add(d, Ordering::Relaxed) + d;
+                let d = (new_size - l.size()) as isize;
+                let now = LIVE.fetch_add(d, Ordering::Relaxed).wrapping_add(d);
                 PEAK.fetch_max(now, Ordering::Relaxed);
             } else {
-                LIVE.fetch_sub(l.size() - new_size, Ordering::Relaxed);
+                LIVE.fetch_sub((l.size() - new_size) as isize, Ordering::Relaxed);
             }
         }
         q
     }
 }
 
-pub fn live() -> usize {
+pub fn live() -> isize {
     LIVE.load(Ordering::Relaxed)
 }
 
@@ -72,5 +73,5 @@ pub fn measure_peak<T>(f: impl FnOnce() -> T) -> (T, usize) {
     PEAK.store(base, Ordering::Relaxed);
     let r = f();
     let peak = PEAK.load(Ordering::Relaxed);
-    (r, peak.saturating_sub(base))
+    (r, peak.saturating_sub(base).max(0) as usize)
 }
